@@ -159,7 +159,9 @@ func entry(resource string, options *EntryOptions) (*base.SentinelEntry, *base.B
 	ctx.Input.BatchCount = options.batchCount
 	ctx.Input.Flag = options.flag
 	if len(options.args) != 0 {
-		ctx.Input.Args = options.args
+		// options is pooled and its args backing array is reused by the next Entry call,
+		// so the context must keep its own copy of the arguments.
+		ctx.Input.Args = append(ctx.Input.Args[:0], options.args...)
 	}
 	if len(options.attachments) != 0 {
 		ctx.Input.Attachments = options.attachments
